@@ -36,8 +36,10 @@ func c10(tier string) []*explore.Scenario {
 	sets := []string{"", "o", "U", "R", "X", "S", "oU", "UR", "RX", "oS", "URX", "UU", "RR", "Z", "ZR", "oZ"}
 	// more blocked unary handlers than the pool has workers (8): the 9th/10th request waits in the read loop
 	sets = append(sets, "UUUUUUUUU", "UUUUUUUUUU", "UUUUUUUUUo", "UUUUUUUUUR")
+	// the statement's full range (8 unary and 8 streaming handlers in flight), default schedule
+	sets = append(sets, "UUUUUUUU", "RRRRRRRR", "XXXXSSSS", "UUUUUUUURRRRRRRR", "RRRRRRRRUUUUUUUU", "URXSURXSURXSURXS")
 	if tier == "thorough" {
-		sets = append(sets, "UURR", "oURXS", "UUUUUUUU", "RRRRRRRR", "XXXXSSSS", "UUUUUUUURRRRRRRR")
+		sets = append(sets, "UURR", "oURXS")
 	}
 	for _, set := range sets {
 		nreq := 0
@@ -51,7 +53,7 @@ func c10(tier string) []*explore.Scenario {
 		if tier == "thorough" && len(set) <= 2 {
 			bound = 2
 		}
-		if len(set) >= 9 {
+		if strings.Count(set, "U")+strings.Count(set, "o") >= 9 {
 			// above the pool's size the read loop is parked handing the 9th request to a
 			// worker: it does not read (so no read can fail) and nothing is written; the
 			// one end that can happen there is Stop, once the 9 requests are in
